@@ -2834,7 +2834,7 @@ _old_units_for = units_for
 
 def units_for(prop: str):  # noqa: F811
     out = _old_units_for(prop)
-    for u in reset_units() + send_signal_units():
+    for u in reset_units() + send_signal_units() + orchestrator_cancel_units():
         u.obligations = [o for o in u.obligations if o.name.startswith(prop + "/")]
         if u.obligations:
             u.prop = prop
@@ -3072,3 +3072,48 @@ def send_signal_units():
              params=[("queue", q), ("execution_id", ("str",)), ("stage_id", ("str",)), ("data", ("opt", ("dict", ("val",))))],
              obligations=[Obl("C18/send/reject", _send_signal_post(True, "REJECT_SIGNAL"), when="any")], **common),
     ]
+
+
+# ---- Orchestrator.cancel: how a cancel request enters the engine (C17)
+def _orch_cancel_post(ctx):
+    """exactly one CancelWorkflow for this execution, carrying user and reason, leaves the call: through one committed
+    transaction when a store is configured, otherwise through one plain queue push; nothing else is written."""
+    I = ctx.I
+    if ctx.exc is not None:
+        return [("no-exception", FALSE)]
+    ex = ctx.args["execution"]
+    txns = P.committed_txns(ctx)
+    tp = [p for t in txns for p in txn_pushes(t)]
+    qp = [e for e in ctx.st.effects if e.kind == "queue_push"]
+    goals = [("exactly-one-message", z3.BoolVal(len(tp) + len(qp) == 1))]
+    if len(tp) + len(qp) != 1:
+        return goals
+    e = (tp or qp)[0]
+    m = e.data["msg"]
+    goals.append(("is-cancel-workflow", z3.BoolVal(e.data["cls"] == "CancelWorkflow")))
+    goals.append(("addressed-to-the-execution", I.ops.eq(I.getattr(m, "execution_id"), I.getattr(ex, "id"))))
+    goals.append(("carries-user", I.ops.eq(I.getattr(m, "user"), ctx.args["user"])))
+    goals.append(("carries-reason", I.ops.eq(I.getattr(m, "reason"), ctx.args["reason"])))
+    goals.append(("no-stage-write", z3.BoolVal(not [x for x in ctx.st.effects_of("store_stage", "update_workflow")])))
+    return goals
+
+
+def orchestrator_cancel_units():
+    from pyvc.verify import Unit
+    from .common import STATUS_NAMES
+    from .hcommon import handler_registry
+
+    def mk_self(ctx):
+        I = ctx.I
+        ci = I.index.find_class("Orchestrator")
+        oid = I.st.new_id()
+        rec = ObjRec(ci.name, ci, {}, {"name": "orchestrator"})
+        I.st.objs[oid] = rec
+        rec.fields["queue"] = T.StoreModel.make_queue(I)
+        rec.fields["store"] = SOpt(T.StoreModel.make_repository(I), z3.Bool("no_store_configured"))
+        return SObj(oid)
+
+    return [Unit(prop="*", name="L2/Orchestrator.cancel", func="stabilize.orchestrator:Orchestrator.cancel", self_type=mk_self,
+                 params=[("execution", ("obj", "Workflow")), ("user", ("str",)), ("reason", ("str",))], names=STATUS_NAMES,
+                 registry=handler_registry(), replayable=False,
+                 obligations=[Obl("C17/request/Orchestrator.cancel", _orch_cancel_post, when="any")])]
